@@ -50,6 +50,7 @@ struct Link {
   bool half_ok = false;
   std::string vendor; std::vector<std::string> comments;
   int ref_err = 0;                          // first negative return of the packet-level reference decode
+  bool ref_crash = false;                   // the reference decode crashed or hung in the probe process (see get_link)
 };
 
 // the seeded test signal of a recipe, sample by sample (deterministic in (recipe, channel, t))
@@ -58,6 +59,10 @@ ogg_packet pkt_to_op(const Pkt &p);
 Pkt pkt_from_op(const ogg_packet &op);
 
 void craft_link(Link &l);
+// Corpus production runs library code too (the reference decode). It is done in a short-lived probe process first; when that dies the link is
+// marked, generators stop using it, the run at hand is replaced by a minimal plan naming just this link (main.cpp), and inside an execution
+// (g_in_exec) the decode is repeated unguarded so that the failure happens inside a run, where it is attributed, minimised and replayed.
+extern bool g_in_exec; extern bool g_ref_crash_seen; extern Recipe g_ref_crash_recipe;
 std::shared_ptr<Link> get_link(const Recipe &r);   // cached per process
 void ensure_half(Link &l);
 // decode a packet list through the packet-level API; returns per-channel pcm and per-packet chunk sizes.
